@@ -5,6 +5,7 @@ import concurrent.futures as cf
 import json, os, re, shutil, subprocess, sys, tempfile
 
 HERE = os.path.dirname(os.path.dirname(os.path.abspath(__file__)))
+SNAP = HERE  # replaced in main() by a snapshot of the checker, so that edits made while the matrix runs do not leak into it
 SEEDED = os.path.join(HERE, "seeded")
 
 
@@ -20,8 +21,8 @@ def run_one(name: str) -> tuple[str, int, list[str]]:
             r = subprocess.run(["patch", "-p1", "-s", "-i", os.path.join(d, "patch.diff")], cwd=tmp, capture_output=True, text=True)
             if r.returncode != 0:
                 return name, -1, ["patch failed: " + r.stderr[:200]]
-        env = dict(os.environ, PYTHONPATH=HERE)
-        p = subprocess.run(["/venv/bin/python", "-m", "sa.run", "--property", prop, "--repo", tmp, "--no-write"], cwd=HERE, capture_output=True, text=True, env=env)
+        env = dict(os.environ, PYTHONPATH=SNAP)
+        p = subprocess.run(["/venv/bin/python", "-m", "sa.run", "--property", prop, "--repo", tmp, "--no-write"], cwd=SNAP, capture_output=True, text=True, env=env)
         rules = sorted(set(re.findall(r"violation: (R[\w.\-]+)", p.stdout)))
         if p.returncode == 2:
             rules = ["ANALYSIS-ERROR: " + " ".join(l for l in p.stdout.splitlines() if "ANALYSIS" in l)[:160]]
@@ -30,7 +31,20 @@ def run_one(name: str) -> tuple[str, int, list[str]]:
         shutil.rmtree(tmp, ignore_errors=True)
 
 
+def _snapshot() -> str:
+    """Copy of the checker (sa/, properties.jsonl, known_findings.json, MANIFEST.json) under a temp dir outside /verif."""
+    d = tempfile.mkdtemp(prefix="sasnap_")
+    shutil.copytree(os.path.join(HERE, "sa"), os.path.join(d, "sa"), ignore=shutil.ignore_patterns("__pycache__"))
+    for f in ("properties.jsonl", "known_findings.json", "MANIFEST.json"):
+        shutil.copy(os.path.join(HERE, f), os.path.join(d, f))
+    return d
+
+
 def main() -> None:
+    global SNAP
+    SNAP = _snapshot()
+    import atexit
+    atexit.register(shutil.rmtree, SNAP, True)
     names = sorted(n for n in os.listdir(SEEDED) if os.path.isdir(os.path.join(SEEDED, n)))
     if len(sys.argv) > 1:
         names = [n for n in names if any(n.startswith(a) for a in sys.argv[1:])]
